@@ -156,7 +156,7 @@ impl Scenario for C19 {
             kill_first: r.chance(1, 2),
             tick_ms: *r.pick(&[1_000u64, 5_000, 9_000, 15_000, 15_000, 60_000]),
             frames,
-            fatal: (*r.pick(&["", "", "", "overlong", "eof_in_frame", "close", "reset", "stall_in_frame"])).to_string(),
+            fatal: (*r.pick(&["", "", "", "overlong", "eof_in_frame", "close", "reset", "stall_in_frame", "local_close_reconnect"])).to_string(),
             reconnect: r.chance(1, 2),
             local_sends: *r.pick(&[0u32, 0, 5, 20]),
             local_bad_sends: r.chance(1, 3),
@@ -200,7 +200,7 @@ impl Scenario for C19 {
             components_stubbed: &["TCP (SimNet)", "EPMD (stub)", "remote node (scripted peer, independent encoder)"],
             assumptions: &["mid-frame delays stay below the read timeout; only idle gaps are long", "the peer's ticks are what a conforming OTP node sends (zero-length frames at its tick period)"],
             fault_prefixes: &["fault.", "net."],
-            expected_probes: &["probe.c19.delivered_send", "probe.c19.delivered_reg_send", "probe.c19.delivered_exit", "probe.c19.delivered_mon_exit", "probe.c19.rpc_reply_delivered", "probe.c19.dropped_unknown_recipient", "probe.c19.survived_junk", "probe.c19.survived_quiet_period", "probe.c19.deregistered_after_fatal", "probe.c19.reconnected", "probe.c19.checkpoint_ok", "probe.c19.near_miss_not_taken_as_reply", "probe.c19.killed_process_prefix_ok", "probe.c19.long_junk_run", "probe.c19.burst_above_mailbox_capacity", "probe.c19.local_operation_failed_without_io", "probe.c19.name_changed_hands", "probe.c19.notices_behind_a_full_mailbox", "probe.c19.stall_inside_a_frame_beyond_the_read_timeout"],
+            expected_probes: &["probe.c19.delivered_send", "probe.c19.delivered_reg_send", "probe.c19.delivered_exit", "probe.c19.delivered_mon_exit", "probe.c19.rpc_reply_delivered", "probe.c19.dropped_unknown_recipient", "probe.c19.survived_junk", "probe.c19.survived_quiet_period", "probe.c19.deregistered_after_fatal", "probe.c19.reconnected", "probe.c19.checkpoint_ok", "probe.c19.near_miss_not_taken_as_reply", "probe.c19.killed_process_prefix_ok", "probe.c19.long_junk_run", "probe.c19.burst_above_mailbox_capacity", "probe.c19.local_operation_failed_without_io", "probe.c19.name_changed_hands", "probe.c19.notices_behind_a_full_mailbox", "probe.c19.stall_inside_a_frame_beyond_the_read_timeout", "probe.c19.local_close_then_connect_again"],
         }
     }
 }
@@ -217,6 +217,8 @@ struct PeerShared {
     rpc_from: Option<Val>,
     fatal_at_ms: Option<u64>,
     script_done: bool,
+    /// a second connection was accepted and handshaken by the peer (and is kept open)
+    second_connected: bool,
     /// index of the frame being / last sent, for diagnostics
     sent_upto: usize,
     /// longest silence (no byte written) the peer produced, in ms, and the tick period
@@ -439,6 +441,7 @@ async fn peer_conn(
     });
 
     if second {
+        ps.lock().unwrap().second_connected = true;
         // after a reconnect: one routable message proves the new connection works
         let pl = Val::tuple(vec![Val::atom("remote"), Val::atom("after_reconnect")]);
         let live = if p.kill_first { 1 } else { 0 };
@@ -595,6 +598,15 @@ async fn peer_conn(
                 let _ = tx.send(Cmd::Frame(outer[cut..].to_vec()));
                 w.stat("probe.c19.stall_inside_a_frame_beyond_the_read_timeout");
             }
+            "local_close_reconnect" => {
+                // the application closes the listed connection itself and asks the node to connect again;
+                // a while later the peer closes the first stream. A connection the node may have made in
+                // between is the peer's second, open stream and has nothing to do with the first one's end.
+                let _ = kill_tx.send(5000);
+                tokio::time::sleep(Duration::from_millis(1_000 + margin_ms(&p))).await;
+                let _ = tx.send(Cmd::Close);
+                w.stat("probe.c19.local_close_then_connect_again");
+            }
             "close" => {
                 let _ = tx.send(Cmd::Close);
             }
@@ -655,7 +667,7 @@ async fn scenario(w: &Arc<World>, p: &Plan) {
             tokio::time::sleep(Duration::from_millis(1)).await;
         }
     }
-    let ps = Arc::new(Mutex::new(PeerShared { rpc_from: None, fatal_at_ms: None, script_done: false, sent_upto: 0, max_silence_ms: 0 }));
+    let ps = Arc::new(Mutex::new(PeerShared { rpc_from: None, fatal_at_ms: None, script_done: false, second_connected: false, sent_upto: 0, max_silence_ms: 0 }));
     let exp = Arc::new(Mutex::new(Expect { per_proc: vec![Vec::new(); p.n_procs as usize], rpc_reply: None, killed: vec![false; p.n_procs as usize], name_owner: (0..p.n_procs as usize).collect() }));
     let (ck_tx, mut ck_rx) = mpsc::unbounded_channel::<(usize, oneshot::Sender<()>)>();
     let (kill_tx, mut kill_rx) = mpsc::unbounded_channel::<usize>();
@@ -663,6 +675,14 @@ async fn scenario(w: &Arc<World>, p: &Plan) {
         let (node_k, pids_k, w_k) = (node.clone(), pids_ext.clone(), w.clone());
         tokio::spawn(async move {
             while let Some(t) = kill_rx.recv().await {
+                if t == 5000 {
+                    let conn = node_k.connections().get(PEER_NAME).map(|e| Arc::clone(e.value()));
+                    if let Some(c) = conn {
+                        let _ = c.lock().await.close().await;
+                    }
+                    let _ = node_k.connect(PEER_NAME).await;
+                    continue;
+                }
                 if t >= 1000 {
                     let (name_i, new) = ((t - 1000) / 100, ((t - 1000) % 100) / 10);
                     let name = Atom::new(format!("name{}", name_i));
@@ -794,7 +814,22 @@ async fn scenario(w: &Arc<World>, p: &Plan) {
     }
     let _ = local_task.await;
 
-    if p.fatal == "stall_in_frame" {
+    if p.fatal == "local_close_reconnect" {
+        tokio::time::sleep(Duration::from_millis(1_000 + 4 * m + 2_000)).await;
+        if ps.lock().unwrap().second_connected {
+            // the peer holds an open, handshaken second stream: that connection is listed and works
+            if !node.connections().contains_key(PEER_NAME) {
+                w.violation("deregistered-while-healthy", "the peer holds an open second connection (made after the application closed the first one locally), but the node no longer lists it: the end of the first stream took it away".to_string());
+            } else {
+                match node.rpc_call_raw_with_timeout(PEER_NAME, "m", "f", vec![OwnedTerm::Integer(999), OwnedTerm::Integer(77)], Duration::from_millis(2000 + 2 * m)).await {
+                    Ok(_) => w.stat("probe.c19.second_connection_usable"),
+                    Err(e) => w.violation("unusable-while-registered", format!("the second connection is listed but a probe call failed: {}", e)),
+                }
+            }
+        } else {
+            w.stat("c19.local_close_not_followed_by_a_new_connection");
+        }
+    } else if p.fatal == "stall_in_frame" {
         // stopping after the read timeout and waiting the stall out are both fine; what counts is that no
         // payload byte is taken for a frame (checked with the deliveries below)
         tokio::time::sleep(Duration::from_millis(2 * READ_TIMEOUT_MS + 3 * m + 5_000)).await;
